@@ -75,6 +75,11 @@ fn main() {
                     std::process::exit(2);
                 }
             };
+            if replay.is_some() && reports.is_empty() {
+                // nothing was executed: the file names no part of this property ("part": ...), so it proves nothing either way
+                eprintln!("HARNESS-ERROR property={} replay file {:?} names no part of this property; nothing was run", prop, replay);
+                std::process::exit(2);
+            }
             let code = finish(&prop, tier, seed, reports, start.elapsed().as_secs_f64(), replay.is_some());
             let _ = std::fs::remove_dir_all(format!("/verif/work/{}", prop));
             std::process::exit(code);
